@@ -10,6 +10,8 @@ use std::cell::Cell;
 
 #[derive(Clone, Debug, Serialize, Deserialize)]
 pub enum Case {
+    /// linear_fit on exactly linear complex data y = slope x + icpt over complex abscissae: must be reproduced
+    LinearComplex { xs: Vec<(f64, f64)>, slope: (f64, f64), icpt: (f64, f64) },
     /// curve_fit_jac on complex data: model linear in 1-4 complex parameters (basis 0 polynomial / 1 trigonometric,
     /// real abscissae), complex truth, start and noise
     CurveComplex {
@@ -479,13 +481,49 @@ fn run_complex(case: &Case, mut o: Obs) -> Outcome {
     }
 }
 
+fn run_linear_complex(case: &Case, mut o: Obs) -> Outcome {
+    let Case::LinearComplex { xs, slope, icpt } = case else { unreachable!() };
+    o.label("linear_fit-complex-data");
+    o.nontrivial = true;
+    let z = |p: &(f64, f64)| C64::new(p.0, p.1);
+    let xs: Vec<C64> = xs.iter().map(z).collect();
+    let (a0, b0) = (z(slope), z(icpt));
+    let ys: Vec<C64> = xs.iter().map(|x| a0 * x + b0).collect();
+    let m = xs.len() as f64;
+    // the formulas are the bilinear ones (no conjugation): well posed when m sum x^2 - (sum x)^2 is not small
+    let (sx, sxx): (C64, C64) = (xs.iter().sum(), xs.iter().map(|x| x * x).sum());
+    let sabs: f64 = xs.iter().map(|x| x.norm_sqr()).sum();
+    let den = sxx * m - sx * sx;
+    if !(den.norm() >= 0.05 * m * sabs) {
+        return o.discard("complex abscissae for which the bilinear normal equations are nearly singular");
+    }
+    let p = match guard(|| linear_fit(&xs, &ys)) {
+        Ok(Ok(p)) => p,
+        Ok(Err(e)) => return o.fail(format!("linear_fit on complex data returned Err({e})")),
+        Err(c) => return o.fail(format!("{c:?}")),
+    };
+    let (a, b) = (p.get_coefficient(1), p.get_coefficient(0));
+    let kappa = m * sabs / den.norm();
+    let xmax = xs.iter().map(|x| x.norm()).fold(0.0, f64::max);
+    let allow = 256.0 * EPS * m * kappa * (a0.norm() * (1.0 + xmax) + b0.norm() + 1e-300);
+    let (ea, eb) = ((a - a0).norm(), (b - b0).norm());
+    o.set("ratio_exact_complex", (ea / allow).max(eb / (allow * (1.0 + xmax))));
+    if p.order() > 1 || !(ea <= allow && eb <= allow * (1.0 + xmax)) {
+        return o.fail(format!("exactly linear complex data not reproduced: slope {a:e} vs {a0:e}, intercept {b:e} vs {b0:e} (allowed {allow:e})"));
+    }
+    o.pass()
+}
+
 pub fn run_case(case: &Case) -> Outcome {
     let mut o = Obs::new();
     if let Case::CurveComplex { .. } = case {
         return run_complex(case, o);
     }
+    if let Case::LinearComplex { .. } = case {
+        return run_linear_complex(case, o);
+    }
     match case {
-        Case::CurveComplex { .. } => unreachable!(),
+        Case::CurveComplex { .. } | Case::LinearComplex { .. } => unreachable!(),
         Case::Linear { xs, slope, icpt, noise, noise_amp, perm_seed, mismatch, offset, spread_exp } => {
             o.label("linear_fit");
             let spread = 10f64.powf(*spread_exp);
@@ -587,6 +625,11 @@ pub fn run_case(case: &Case) -> Outcome {
             };
             let ys: Vec<f64> = (0..n).map(|i| model_eval(model, xs[i], &pt) + noise_amp * noise[i % noise.len()]).collect();
             let st: Vec<f64> = if linear { start[..v].to_vec() } else { (0..v).map(|k| pt[k] * (1.0 + 0.2 * start[k] / 2.0)).collect() };
+            // damping below 1e-4 (practically Gauss-Newton) only for the models linear in their parameters
+            let damping = &(if linear { *damping } else { damping.max(1e-4) });
+            if *damping < 1e-4 {
+                o.label("gauss-newton-damping");
+            }
             let mut prm = CurveFitParams::<f64> { damping: *damping, tolerance: *tol, h: *h, damping_mult: *mult };
             let calls = Cell::new(0usize);
             if *invalid != 0 {
@@ -766,7 +809,7 @@ fn strategy(_t: Tier) -> BoxedStrategy<Case> {
     let curve = (
         (0u8..5, 1usize..=4, xs_strategy(6, 60)),
         (proptest::collection::vec(gen::fl(-2.0, 2.0), 4), proptest::collection::vec(gen::fl(-2.0, 2.0), 4), proptest::collection::vec(gen::fl(-1.0, 1.0), 60), prop_oneof![1 => Just(0.0), 1 => gen::logu(-4.0, -2.0)]),
-        (gen::logu(-12.0, -6.0), prop_oneof![3 => gen::logu(-2.0, 1.0), 1 => gen::logu(-4.0, -2.0)], gen::fl(1.1, 5.0), gen::logu(-4.0, -1.0), any::<bool>(), prop_oneof![12 => Just(0u8), 1 => 1u8..=4]),
+        (gen::logu(-12.0, -6.0), prop_oneof![6 => gen::logu(-2.0, 1.0), 2 => gen::logu(-4.0, -2.0), 1 => gen::logu(-10.0, -4.0)], gen::fl(1.1, 5.0), gen::logu(-4.0, -1.0), any::<bool>(), prop_oneof![12 => Just(0u8), 1 => 1u8..=4]),
     )
         .prop_map(|((model, nparam, xs), (truth, start, noise, noise_amp), (tol, damping, mult, h, fd, invalid))| Case::Curve { model, nparam, xs, truth, start, noise, noise_amp, tol, damping, mult, h, fd, invalid });
     let zc = || (gen::fl(-2.0, 2.0), gen::fl(-2.0, 2.0));
@@ -776,7 +819,9 @@ fn strategy(_t: Tier) -> BoxedStrategy<Case> {
         (gen::logu(-12.0, -6.0), gen::logu(-3.0, 1.0), gen::fl(1.1, 5.0), prop_oneof![2 => Just(0u8), 1 => 1u8..=3]),
     )
         .prop_map(|((basis, nparam, xs), (truth, start, noise, noise_amp), (tol, damping, mult, phase_lock))| Case::CurveComplex { basis, nparam, xs, truth, start, noise, noise_amp, tol, damping, mult, phase_lock });
-    prop_oneof![3 => linear, 9 => curve, 1 => ccurve].boxed()
+    let zl = || (gen::fl(-2.0, 2.0), gen::fl(-2.0, 2.0));
+    let clinear = (proptest::collection::vec(zl(), 3..=30), zl(), zl()).prop_map(|(xs, slope, icpt)| Case::LinearComplex { xs, slope, icpt });
+    prop_oneof![6 => linear, 18 => curve, 2 => ccurve, 1 => clinear].boxed()
 }
 
 pub fn run(opts: &Opts) -> i32 {
@@ -784,7 +829,7 @@ pub fn run(opts: &Opts) -> i32 {
     spec.cases = opts.tier.pick(6_000, 150_000);
     spec.essential = vec![("linear_fit", 0.1), ("curve_fit_jac", 0.2), ("curve_fit", 0.2), ("noisy", 0.2), ("invalid", 0.03), ("gaussian", 0.05), ("logistic", 0.05), ("exponential", 0.05), ("noisy-replicated-abscissae", 0.05), ("curve_fit_jac-complex-data", 0.04)];
     spec.max_discard_frac = 0.2;
-    spec.rule = "generated: linear_fit on 3-60 stratified abscissae in [-2,2] (a third of all designs snapped to a grid of width 0.25/0.5/1, i.e. with replicated abscissae), exactly linear or noisy (10^[-4,-1]), permuted order, mismatched lengths, two fifths of the designs moved to offset + 10^[-1.5,1] x (offsets 10, -50, 2010 or U(-3000,3000): data far from the origin relative to their spread; allowances scale with kappa = sum x^2 / sum (x-mean)^2); curve_fit_jac / curve_fit on 6-60 abscissae with models linear in 1-4 parameters (polynomial and trigonometric bases, arbitrary starts in [-2,2]) and non-linear models a e^{bx}+c, gaussian, logistic (starts within 20% of the truth), noise 0 or 10^[-4,-2], tolerance 10^[-12,-6], damping 10^[-2,1] (a quarter of the cases 10^[-4,-2]: nearly Gauss-Newton), multiplier [1.1,5], h 10^[-4,-1]; designs with lambda_min(J^T J) < 1e-3, non-linear designs whose stopping-rule bound exceeds a tenth of the parameter scale, and non-linear designs whose least-squares solution lies further than a tenth of the parameter scale from the generating parameters, are discarded (counted); invalid: negative tolerance / h / damping, mismatched lengths; one case in thirteen is curve_fit_jac on complex data (model linear in 1-4 complex parameters, complex noise; a third of them noise-free with a start that differs from the truth by a common complex phase 1+i, 1-i or i times a real vector) against the complex normal equations. Oracle: normal equations, exact-linear reproduction, permutation invariance; model-call budget (termination); distance to the reference least-squares solution (harness Gauss-Newton with analytic Jacobian) <= 10 sqrt(tol/lambda_min) sqrt(1 + d/(2 mu_min)) + 1e-9 (d = final damping from the transliterated loop, mu_min = smallest eigenvalue of the diagonally scaled Gauss-Newton matrix) (+ 40 h^2 |r| term for finite differences); a failing curve_fit outcome that coincides with the harness's bug-compatible transliteration of the Levenberg-Marquardt loop (Jacobian = sum) is the recorded finding K1; a failing curve_fit_jac outcome on a non-linear model that coincides with the transliterated loop, in which that loop accepted a step raising the sum of squares, and which a safeguarded Levenberg-Marquardt iteration from the same start and damping solves, is the recorded finding K3. Non-trivial = non-linear model, noisy data or >= 3 parameters (linear_fit: noisy or >= 10 points). Distinct = distinct case JSON.".into();
+    spec.rule = "generated: linear_fit on 3-60 stratified abscissae in [-2,2] (a third of all designs snapped to a grid of width 0.25/0.5/1, i.e. with replicated abscissae), exactly linear or noisy (10^[-4,-1]), permuted order, mismatched lengths, two fifths of the designs moved to offset + 10^[-1.5,1] x (offsets 10, -50, 2010 or U(-3000,3000): data far from the origin relative to their spread; allowances scale with kappa = sum x^2 / sum (x-mean)^2); curve_fit_jac / curve_fit on 6-60 abscissae with models linear in 1-4 parameters (polynomial and trigonometric bases, arbitrary starts in [-2,2]) and non-linear models a e^{bx}+c, gaussian, logistic (starts within 20% of the truth), noise 0 or 10^[-4,-2], tolerance 10^[-12,-6], damping 10^[-2,1] (two ninths of the cases 10^[-4,-2], one ninth 10^[-10,-4] for the models linear in their parameters: practically Gauss-Newton), multiplier [1.1,5], h 10^[-4,-1]; designs with lambda_min(J^T J) < 1e-3, non-linear designs whose stopping-rule bound exceeds a tenth of the parameter scale, and non-linear designs whose least-squares solution lies further than a tenth of the parameter scale from the generating parameters, are discarded (counted); invalid: negative tolerance / h / damping, mismatched lengths; one case in thirteen is curve_fit_jac on complex data (model linear in 1-4 complex parameters, complex noise; a third of them noise-free with a start that differs from the truth by a common complex phase 1+i, 1-i or i times a real vector) against the complex normal equations; linear_fit on exactly linear complex data over complex abscissae (reproduction). Oracle: normal equations, exact-linear reproduction, permutation invariance; model-call budget (termination); distance to the reference least-squares solution (harness Gauss-Newton with analytic Jacobian) <= 10 sqrt(tol/lambda_min) sqrt(1 + d/(2 mu_min)) + 1e-9 (d = final damping from the transliterated loop, mu_min = smallest eigenvalue of the diagonally scaled Gauss-Newton matrix) (+ 40 h^2 |r| term for finite differences); a failing curve_fit outcome that coincides with the harness's bug-compatible transliteration of the Levenberg-Marquardt loop (Jacobian = sum) is the recorded finding K1; a failing curve_fit_jac outcome on a non-linear model that coincides with the transliterated loop, in which that loop accepted a step raising the sum of squares, and which a safeguarded Levenberg-Marquardt iteration from the same start and damping solves, is the recorded finding K3. Non-trivial = non-linear model, noisy data or >= 3 parameters (linear_fit: noisy or >= 10 points). Distinct = distinct case JSON.".into();
     spec.assumptions = vec!["reference least-squares solution by Gauss-Newton from the generating parameters".into(), "bug-compatible LM transliteration tracks the implementation bit-for-bit (same nalgebra calls)".into()];
     spec.max_shrink_iters = 400;
     run_spec(spec, opts)
